@@ -57,22 +57,26 @@ class TransferShelveCache:
         logger.info("writing %d transfers to : %s", len(transfers), db_path)
 
         with shelve.open(db_path, flag='c') as database:
-            # Update/add transfers
+            # Update/add transfers. The length of the username is part of the
+            # hashed value to keep the concatenation unambiguous: without it
+            # ('ab', 'c') and ('a', 'bc') would be stored under the same key
+            written_keys = set()
             for transfer in transfers:
                 key = hashlib.sha256(
                     (
+                        str(len(transfer.username)) + ':' +
                         transfer.username +
                         transfer.remote_path +
                         str(transfer.direction.value)
                     ).encode('utf-8')
                 ).hexdigest()
                 database[key] = transfer
+                written_keys.add(key)
 
-            # Remove non existing transfers
-            keys_to_delete = []
-            for key, db_transfer in database.items():
-                if not any(transfer == db_transfer for transfer in transfers):
-                    keys_to_delete.append(key)
+            # Remove non existing transfers: every entry that was not written
+            # just now (including entries stored under the previous key format)
+            keys_to_delete = [
+                key for key in database.keys() if key not in written_keys]
             for key_to_delete in keys_to_delete:
                 database.pop(key_to_delete)
 
